@@ -8,7 +8,20 @@ def run_all(run):
         units += run.pc.get('thorough_units', [])
     for u in units:
         if u == 'verus':
-            run.verus_unit()
+            # A verifier that cannot decide (unsupported construct in a rewritten function, lost function, resource limit) must
+            # not keep the other engines from looking at the real code: a failing exhaustive enumeration, Kani harness or native
+            # witness on this tree is a violation whatever Verus could or could not do. The reason is kept and, if nothing else
+            # fails, the run still ends UNDECIDED.
+            import check as _check_mod
+            _Und = getattr(sys.modules.get('__main__'), 'Undecided', None) or _check_mod.Undecided
+            if len(units) > 1:
+                try:
+                    run.verus_unit()
+                except _Und as e:
+                    run.deferred_undecided.append(str(e))
+                    run.notes.append('verus undecided, other units still run: ' + str(e)[:200])
+            else:
+                run.verus_unit()
         elif u.startswith('kani:'):
             import kani_unit
             kani_unit.run(run, u[5:])
